@@ -3,6 +3,7 @@ package nfs
 import (
 	"bytes"
 	"fmt"
+	"regexp"
 	"sort"
 	"strings"
 	"time"
@@ -33,6 +34,11 @@ type client40 struct {
 
 	alive     bool
 	lastRenew time.Time
+	// lastContact: the last time the client sent ANY request that names
+	// its client ID or one of its state IDs, successful or not (an upper
+	// bound of what the server can have recorded as the client's last
+	// sign of life; see world.checkLapsed).
+	lastContact time.Time
 
 	owners  map[string]*owner40
 	lowners map[string]*lowner40
@@ -98,6 +104,8 @@ func (c *client40) lowner(name string) *lowner40 {
 	return l
 }
 
+func (c *client40) touch() { c.lastContact = c.w.clk.Now() }
+
 func (c *client40) renew() {
 	c.alive = true
 	c.lastRenew = c.w.clk.Now()
@@ -152,7 +160,7 @@ func (c *client40) key() string {
 		if c.alive {
 			age = w.clk.Now().Sub(c.lastRenew).String()
 		}
-		fmt.Fprintf(&b, " id=%s/%d renewed=%s", name(c.id), c.idVerf, age)
+		fmt.Fprintf(&b, " id=%s/%d renewed=%s %s", name(c.id), c.idVerf, age, w.contactKey(0, c.lastContact))
 	}
 	b.WriteString("\n")
 	for _, on := range sortedKeys(c.owners) {
@@ -287,6 +295,7 @@ func resopStatus(r nfsv4.NfsResop4) nfsv4.Nfsstat4 {
 }
 
 func (c *client40) setclientid(f failer, verifier byte) {
+	c.touch()
 	res := c.w.compound(0, "SETCLIENTID", &nfsv4.NfsArgop4_OP_SETCLIENTID{Opsetclientid: nfsv4.Setclientid4args{
 		Client: nfsv4.NfsClientId4{Verifier: nfsv4.Verifier4{verifier}, Id: []byte(c.long)},
 	}})
@@ -299,6 +308,7 @@ func (c *client40) setclientid(f failer, verifier byte) {
 }
 
 func (c *client40) confirm(f failer) nfsv4.Nfsstat4 {
+	c.touch()
 	res := c.w.compound(0, "SETCLIENTID_CONFIRM", &nfsv4.NfsArgop4_OP_SETCLIENTID_CONFIRM{OpsetclientidConfirm: nfsv4.SetclientidConfirm4args{
 		Clientid: c.pendID, SetclientidConfirm: c.pendConf,
 	}})
@@ -371,6 +381,7 @@ func (w *world) snapshot() string { return w.serverDump() + w.fs.sideEffects() }
 // number), surrounded, when C19 is being checked, by the misordered, the
 // false-retry and the retransmitted variants.
 func (c *client40) send(f failer, r *seqRequest40) *nfsv4.Compound4res {
+	c.touch()
 	w := c.w
 	last := r.lastSeq()
 	next := nextSeq(last)
@@ -662,6 +673,7 @@ func lockType(shared bool) nfsv4.NfsLockType4 {
 // lock state on this open yet (Locker4_TRUE), through the lock state ID
 // otherwise.
 func (c *client40) lock(f failer, ownerName, file, lownerName string, r lockRange, shared bool) nfsv4.Nfsstat4 {
+	c.touch()
 	w := c.w
 	o := c.owner(ownerName)
 	op := o.files[file]
@@ -682,16 +694,20 @@ func (c *client40) lock(f failer, ownerName, file, lownerName string, r lockRang
 			}}
 	} else {
 		lseq := nextSeq(lo.seq)
+		buildWith := func(seq, lockSeq uint32) []nfsv4.NfsArgop4 {
+			return []nfsv4.NfsArgop4{putfh(op.leaf.handle), &nfsv4.NfsArgop4_OP_LOCK{Oplock: nfsv4.Lock4args{
+				Locktype: lockType(shared), Offset: r.offset, Length: r.length,
+				Locker: &nfsv4.Locker4_TRUE{OpenOwner: nfsv4.OpenToLockOwner4{
+					OpenSeqid: seq, OpenStateid: op.sid, LockSeqid: lockSeq,
+					LockOwner: nfsv4.LockOwner4{Clientid: c.id, Owner: []byte(lownerName)},
+				}},
+			}}}
+		}
 		req = &seqRequest40{what: what, kind: "LOCK", oo: o, tracked: c.tracked(o), idx: 1,
-			build: func(seq uint32) []nfsv4.NfsArgop4 {
-				return []nfsv4.NfsArgop4{putfh(op.leaf.handle), &nfsv4.NfsArgop4_OP_LOCK{Oplock: nfsv4.Lock4args{
-					Locktype: lockType(shared), Offset: r.offset, Length: r.length,
-					Locker: &nfsv4.Locker4_TRUE{OpenOwner: nfsv4.OpenToLockOwner4{
-						OpenSeqid: seq, OpenStateid: op.sid, LockSeqid: lseq,
-						LockOwner: nfsv4.LockOwner4{Clientid: c.id, Owner: []byte(lownerName)},
-					}},
-				}}}
-			}}
+			build: func(seq uint32) []nfsv4.NfsArgop4 { return buildWith(seq, lseq) }}
+		if mc.Active("C19") && req.tracked && entitled && c.lownerTracked(lownerName) {
+			c.probeLockSeqid(f, what, o, lo, buildWith)
+		}
 	}
 	res := c.send(f, req)
 	st := opStatus(res, 1)
@@ -749,6 +765,64 @@ func (c *client40) lock(f failer, ownerName, file, lownerName string, r lockRang
 	return st
 }
 
+// lownerTracked: the server is known to track the lock-owner's sequence
+// number, because the lock-owner holds lock state on some open file of this
+// client (RELEASE_LOCKOWNER, CLOSE and expiry make the server forget it; a
+// forgotten lock-owner is re-created with ANY lock_seqid).
+func (c *client40) lownerTracked(lownerName string) bool {
+	if !c.haveID || !c.alive {
+		return false
+	}
+	owners, opens := c.allOpens()
+	for i, op := range opens {
+		if l := op.locks[lownerName]; l != nil && l.valid && !l.gone && c.entitled(owners[i], op) {
+			return true
+		}
+	}
+	return false
+}
+
+var (
+	reOwnerLast = regexp.MustCompile(`(?m)^(  oo "[^"]*" confirmed=\S+ lastSeq=\d+) last=\S+`)
+	reConfAge   = regexp.MustCompile(` age=\S+`)
+	reIdleOrder = regexp.MustCompile(`(?m)^idle:.*$`)
+)
+
+// normLockSeqidProbe hides what a LOCK with the open-owner's NEXT sequence
+// number but a misordered lock-owner sequence number may legitimately
+// change: the open-owner's transaction is started (its cached previous reply
+// is released: the client has moved on) and the client's lease is renewed;
+// the nested lock-owner transaction is refused, so neither sequence number
+// advances and nothing else may change.
+func normLockSeqidProbe(s string) string {
+	s = reOwnerLast.ReplaceAllString(s, "$1 last=*")
+	s = reConfAge.ReplaceAllString(s, " age=*")
+	return reIdleOrder.ReplaceAllString(s, "idle:*")
+}
+
+// probeLockSeqid: LOCK in the open_to_lock_owner4 form for a lock-owner that
+// the server already tracks through ANOTHER open file. open_seqid is in
+// order, lock_seqid is neither the lock-owner's next nor its last number: the
+// request must be refused NFS4ERR_BAD_SEQID and must not acquire anything.
+func (c *client40) probeLockSeqid(f failer, what string, o *owner40, lo *lowner40, build func(seq, lockSeq uint32) []nfsv4.NfsArgop4) {
+	w := c.w
+	if o.lastKind == "CLOSE" {
+		// The open-owner's next transaction finalizes the half-closed
+		// file of its preceding CLOSE: a legitimate change.
+		return
+	}
+	for _, bad := range []uint32{nextSeq(nextSeq(lo.seq)), lo.seq - 1, lo.seq + 76} {
+		before := normLockSeqidProbe(w.snapshot())
+		res := w.compound(0, what+"(lock_seqid misordered)", build(nextSeq(o.seq), bad)...)
+		if st := opStatus(res, 1); st != nfsv4.NFS4ERR_BAD_SEQID {
+			f.FailP("C19", "misordered-accepted/LOCK", "%s in the open_to_lock_owner4 form with the next open_seqid but lock_seqid %d (lock-owner %s exists through another open file, its last sequence number is %d) was answered %d instead of NFS4ERR_BAD_SEQID", what, bad, lo.name, lo.seq, st)
+		}
+		if after := normLockSeqidProbe(w.snapshot()); after != before {
+			f.FailP("C19", "misordered-side-effect/LOCK", "%s with a misordered lock_seqid (%d, last %d) changed state:\n--- before\n%s\n--- after\n%s", what, bad, lo.seq, before, after)
+		}
+	}
+}
+
 func (c *client40) locku(f failer, ownerName, file, lownerName string, r lockRange) nfsv4.Nfsstat4 {
 	w := c.w
 	o := c.owner(ownerName)
@@ -788,6 +862,7 @@ func (c *client40) locku(f failer, ownerName, file, lownerName string, r lockRan
 
 // lockt sends LOCKT for a lock-owner of this client against a leaf.
 func (c *client40) lockt(f failer, leaf *fakeLeaf, lownerName string, r lockRange, shared bool) nfsv4.Nfsstat4 {
+	c.touch()
 	w := c.w
 	me := ownerKey(0, c.long, lownerName)
 	what := fmt.Sprintf("LOCKT(%s,%s,%s,%s,shared=%v)", c.long, leaf.id, lownerName, r.name, shared)
@@ -831,6 +906,7 @@ func (c *client40) lockt(f failer, leaf *fakeLeaf, lownerName string, r lockRang
 }
 
 func (c *client40) releaseLockowner(f failer, lownerName string) nfsv4.Nfsstat4 {
+	c.touch()
 	w := c.w
 	wasAlive := c.haveID && c.alive
 	me := ownerKey(0, c.long, lownerName)
@@ -913,6 +989,7 @@ func (k ioKind) needs() uint32 {
 // ID. entitledBits are the access bits the bookkeeper believes the state
 // ID entitles to (0: no claim).
 func (c *client40) io(f failer, k ioKind, leaf *fakeLeaf, sid nfsv4.Stateid4, entitledBits uint32, regular bool) nfsv4.Nfsstat4 {
+	c.touch()
 	what := fmt.Sprintf("%s(%s,%s)", k, c.long, leaf.id)
 	res := c.w.compound(0, what, putfh(leaf.handle), ioOp(k, sid))
 	st := opStatus(res, 1)
@@ -928,6 +1005,7 @@ func (c *client40) io(f failer, k ioKind, leaf *fakeLeaf, sid nfsv4.Stateid4, en
 }
 
 func (c *client40) renewOp(f failer) nfsv4.Nfsstat4 {
+	c.touch()
 	wasAlive := c.haveID && c.alive
 	res := c.w.compound(0, "RENEW", &nfsv4.NfsArgop4_OP_RENEW{Oprenew: nfsv4.Renew4args{Clientid: c.id}})
 	if res.Status == nfsv4.NFS4_OK {
